@@ -1,6 +1,7 @@
 package util
 
 import (
+	"io"
 	"os"
 	"path/filepath"
 	"sort"
@@ -72,13 +73,39 @@ func UnlinkFileAt(dir *os.File, filename string) error {
 	return unix.Unlinkat(int(dir.Fd()), filename, 0)
 }
 
+// writeFileTempSuffix is appended to the name of a file while it is being written
+const writeFileTempSuffix = ".tmp"
+
 // WriteFileAt writes to a new file in given directory
+//
+// The data is written to a temporary file first and renamed to the final name only after everything has been written,
+// so that a short write, an I/O error or a crash never leaves a partial file under the final name.
 func WriteFileAt(dir *os.File, filename string, data []byte, perm os.FileMode) error {
-	fd, oerr := unix.Openat(int(dir.Fd()), filename, unix.O_WRONLY|unix.O_CREAT|unix.O_TRUNC, uint32(perm))
+	tempname := filename + writeFileTempSuffix
+	fd, oerr := unix.Openat(int(dir.Fd()), tempname, unix.O_WRONLY|unix.O_CREAT|unix.O_TRUNC, uint32(perm))
 	if oerr != nil {
 		return oerr
 	}
-	_, werr := unix.Write(fd, data)
-	unix.Close(fd)
+	var werr error
+	for written := 0; written < len(data) && werr == nil; {
+		n, err := unix.Write(fd, data[written:])
+		switch {
+		case err != nil:
+			werr = err
+		case n <= 0:
+			werr = io.ErrShortWrite
+		default:
+			written += n
+		}
+	}
+	if cerr := unix.Close(fd); werr == nil {
+		werr = cerr
+	}
+	if werr == nil {
+		werr = unix.Renameat(int(dir.Fd()), tempname, int(dir.Fd()), filename)
+	}
+	if werr != nil {
+		_ = unix.Unlinkat(int(dir.Fd()), tempname, 0)
+	}
 	return werr
 }
